@@ -108,13 +108,19 @@ func ConfirmCrash(exe, id string, runSeed uint64, tp []uint64, tier string, time
 // busyLibraryFrame looks through a goroutine dump for a goroutine that is
 // running or runnable and whose innermost frame outside the standard library
 // belongs to the library under test; it returns that frame.
-func busyLibraryFrame(dump string) string {
+func busyLibraryFrame(dump string) string { return libraryFrame(dump, false) }
+
+// libraryFrame is busyLibraryFrame; with blocked it also accepts a goroutine
+// parked in a mutex acquisition (checks that run library code on one goroutine).
+func libraryFrame(dump string, blocked bool) string {
 	for _, blk := range strings.Split(dump, "\n\n") {
 		lines := strings.Split(strings.TrimSpace(blk), "\n")
 		if len(lines) < 2 || !strings.HasPrefix(lines[0], "goroutine ") {
 			continue
 		}
-		if !strings.Contains(lines[0], "[running") && !strings.Contains(lines[0], "[runnable") {
+		busy := strings.Contains(lines[0], "[running") || strings.Contains(lines[0], "[runnable")
+		parked := blocked && (strings.Contains(lines[0], "[sync.Mutex.Lock") || strings.Contains(lines[0], "[sync.RWMutex") || strings.Contains(lines[0], "[semacquire"))
+		if !busy && !parked {
 			continue
 		}
 		for _, ln := range lines[1:] {
@@ -148,6 +154,10 @@ func busyLibraryFrame(dump string) string {
 }
 
 func confirmCrash(exe, id string, runSeed uint64, tp []uint64, tier string, timeoutS float64, extraEnv []string, attribute bool) (string, string) {
+	return confirmCrashMode(exe, id, runSeed, tp, tier, timeoutS, extraEnv, attribute, false)
+}
+
+func confirmCrashMode(exe, id string, runSeed uint64, tp []uint64, tier string, timeoutS float64, extraEnv []string, attribute, sequential bool) (string, string) {
 	args := []string{"one", id, strconv.FormatUint(runSeed, 10), tier}
 	if len(tp) > 0 {
 		var parts []string
@@ -220,9 +230,12 @@ func confirmCrash(exe, id string, runSeed uint64, tp []uint64, tier string, time
 				_ = cmd.Process.Kill()
 				<-done
 			}
-			frame := busyLibraryFrame(out.String())
+			frame := libraryFrame(out.String(), sequential)
 			if frame == "" {
 				return "", "" // everything parked, or the harness is the one computing: not the library's doing
+			}
+			if busyLibraryFrame(out.String()) == "" {
+				return "deadlock:" + frame, fmt.Sprintf("run seed %d does not return within %.0f s in a fresh process: the one goroutine that runs library code is parked in a mutex acquisition inside the library (innermost frame %s) - a lock that no exit path released (reproduce: verif one %s %d %s)", runSeed, timeoutS+10, frame, id, runSeed, tier)
 			}
 			return "hang:" + frame, fmt.Sprintf("run seed %d does not return within %.0f s in a fresh process, and the goroutine dump shows library code computing (innermost frame %s) rather than anything parked (reproduce: verif one %s %d %s)", runSeed, timeoutS+10, frame, id, runSeed, tier)
 		}
@@ -767,7 +780,11 @@ func confirmOne(c Check, cc CrashChecker, exe, tier string, seed uint64, w int, 
 	if ha, ok := c.(HangAttributor); ok {
 		attribute = ha.HangNeedsLibraryFrame()
 	}
-	class, detail := confirmCrash(exe, c.ID(), rs, jt, tier, cc.RunTimeout(), extraEnv, attribute)
+	sequential := false
+	if sl, ok := c.(SequentialLibrary); ok {
+		sequential = sl.LibraryRunsOnOneGoroutine()
+	}
+	class, detail := confirmCrashMode(exe, c.ID(), rs, jt, tier, cc.RunTimeout(), extraEnv, attribute, sequential)
 	if class == "" {
 		return // not reproduced: stays harness trouble
 	}
@@ -805,7 +822,11 @@ func RunReplay(c Check, rf *ReplayFile) int {
 		if ha, ok := c.(HangAttributor); ok {
 			attribute = ha.HangNeedsLibraryFrame()
 		}
-		class, detail := confirmCrash(exe, c.ID(), rf.RunSeed, rf.Tape, rf.Tier, tout, nil, attribute)
+		sequential := false
+		if sl, ok := c.(SequentialLibrary); ok {
+			sequential = sl.LibraryRunsOnOneGoroutine()
+		}
+		class, detail := confirmCrashMode(exe, c.ID(), rf.RunSeed, rf.Tape, rf.Tier, tout, nil, attribute, sequential)
 		if class != "" {
 			fmt.Printf("REPRODUCED class=%q\n%s\nVIOLATION property=%s replay=(this file)\n", class, detail, rf.Property)
 			return 1
